@@ -24,10 +24,15 @@ package execenv
 //@ func LoadBackend$1$1
 //@   modifies nothing
 
+// Watching the cache being opened: the only thing that makes it fail is an error reported by the cache itself -
+// every other event (the notice that a stale lock was cleaned included) is progress information (C19: a command
+// run after a killed holder cleans the lock and works).
 //@ func CacheBuildProgressBar
-//@   trusted
+//@   props C19
 //@   modifies cache.repoLocked
-//@   ensures [opened] result == nil ==> cache.repoLocked
+//@   opt trusted_frame
+//@   defines [opened] result == nil ==> cache.repoLocked
+//@   check [only-a-reported-error-fails-the-open] result != nil ==> event.Err != nil && result == event.Err
 
 // opening the git repository has nothing to do with the cache lock
 //@ func LoadRepo$1
